@@ -30,6 +30,7 @@ void (*io_parity_write)(struct snapraid_io* io, unsigned* levcur, unsigned* wait
 void (*io_write_preset)(struct snapraid_io* io, block_off_t blockcur, int skip) = 0;
 void (*io_write_next)(struct snapraid_io* io, block_off_t blockcur, int skip, int* writer_error) = 0;
 void (*io_refresh)(struct snapraid_io* io) = 0;
+void (*io_flush)(struct snapraid_io* io) = 0;
 
 
 /**
@@ -190,6 +191,12 @@ static void io_write_next_mono(struct snapraid_io* io, block_off_t blockcur, int
 
 static void io_refresh_mono(struct snapraid_io* io)
 {
+	(void)io;
+}
+
+static void io_flush_mono(struct snapraid_io* io)
+{
+	/* all the writes are already done */
 	(void)io;
 }
 
@@ -391,8 +398,14 @@ static struct snapraid_task* io_writer_step(struct snapraid_worker* worker, int 
 			return 0;
 		}
 
+		/* notify the IO that this writer has completed all the scheduled writes */
+		++io->writer_idle;
+		thread_cond_signal(&io->write_done);
+
 		/* otherwise wait for a write_sched event */
 		thread_cond_wait(&io->write_sched, &io->io_mutex);
+
+		--io->writer_idle;
 	}
 }
 
@@ -481,6 +494,33 @@ static void io_write_next_thread(struct snapraid_io* io, block_off_t blockcur, i
 
 	/* signal all the workers that there is a new pending task */
 	thread_cond_broadcast_and_unlock(&io->write_sched, &io->io_mutex);
+}
+
+static void io_flush_thread(struct snapraid_io* io)
+{
+	/* the synchronization is protected by the io mutex */
+	thread_mutex_lock(&io->io_mutex);
+
+	while (1) {
+		unsigned i;
+
+		/* check if some writer has still to start a scheduled write */
+		for (i = 0; i < io->writer_max; ++i) {
+			struct snapraid_worker* worker = &io->writer_map[i];
+
+			if ((worker->index + 1) % io->io_max != io->writer_index)
+				break;
+		}
+
+		/* if nothing is pending, and all the writers are waiting for new writes */
+		if (i == io->writer_max && io->writer_idle == io->writer_max)
+			break;
+
+		/* otherwise wait for a writer to complete its work */
+		thread_cond_wait(&io->write_done, &io->io_mutex);
+	}
+
+	thread_mutex_unlock(&io->io_mutex);
 }
 
 static void io_refresh_thread(struct snapraid_io* io)
@@ -787,6 +827,7 @@ static void io_start_thread(struct snapraid_io* io,
 	io->done = 0;
 	io->reader_index = io->io_max - 1;
 	io->writer_index = 0;
+	io->writer_idle = 0;
 
 	/* clear writer errors */
 	for (i = 0; i < IO_WRITER_ERROR_MAX; ++i)
@@ -983,6 +1024,7 @@ void io_init(struct snapraid_io* io, struct snapraid_state* state,
 		io_write_preset = io_write_preset_thread;
 		io_write_next = io_write_next_thread;
 		io_refresh = io_refresh_thread;
+		io_flush = io_flush_thread;
 		io_data_read = io_data_read_thread;
 		io_parity_read = io_parity_read_thread;
 		io_parity_write = io_parity_write_thread;
@@ -1001,6 +1043,7 @@ void io_init(struct snapraid_io* io, struct snapraid_state* state,
 		io_write_preset = io_write_preset_mono;
 		io_write_next = io_write_next_mono;
 		io_refresh = io_refresh_mono;
+		io_flush = io_flush_mono;
 		io_data_read = io_data_read_mono;
 		io_parity_read = io_parity_read_mono;
 		io_parity_write = io_parity_write_mono;
